@@ -679,6 +679,7 @@ func modelLine(f fields, ps *provSpec, httpOK bool, sh httpShape, ca *testCA) st
 	}
 	fmt.Fprintf(&b, "pki meth=%s path=%s lookup=%s qok=%s op=%s ppair=%s ddec=%s dsig=%s inter=1 roots=1 exint=%s incroot=%s caps=%s enc=%d minlen=%d conv=%d",
 		sh.meth, sh.path, sh.lookup, okStr(sh.qok), sh.op, ppair, ddec, dsig, okStr(ps.ExInt), okStr(ps.IncRoot), caps, alg, ps.MinLen, conv)
+	fmt.Fprintf(&b, " %s", keyFields(ps))
 	fmt.Fprintf(&b, " http=%s p7=%s tid=%s", okStr(httpOK), okStr(f.P7), okStr(f.TID))
 	if f.MTok {
 		fmt.Fprintf(&b, " mt=%s", c.X(f.MT))
